@@ -11,9 +11,10 @@ cp mutant_out/demo.rs $out/demo.rs; cp mutant_out/notes.md $out/notes.md 2>/dev/
 suite=$(cargo test --workspace --no-fail-fast --offline 2>&1 | grep -E "^test result" | awk '{p+=$4; f+=$6} END {print p" passed "f" failed"}')
 cp mutant_out/demo.rs tests/mutant_demo.rs
 with=$(cargo test --offline --test mutant_demo 2>&1 | grep -E "^test result" | head -1)
-git stash push -q -- src
+git diff -- src > /tmp/confirm_$id.diff
+git checkout -- src
 without=$(cargo test --offline --test mutant_demo 2>&1 | grep -E "^test result" | head -1)
-git stash pop -q
+git apply /tmp/confirm_$id.diff; rm -f /tmp/confirm_$id.diff
 rm -f tests/mutant_demo.rs
 python3 - "$out" "$id" "$prop" "$suite" "$with" "$without" <<'PY'
 import json,sys
